@@ -100,6 +100,7 @@ def probe(name, data=FLAGGED):
     return out
 
 
+CANARY = b"cverif_canary\nfire\n."  # importable, not imported: resolving it would run its module code
 ADDABLE_PROBES = {
     "fractions.Fraction": b"cfractions\nFraction\n(I1\nI2\ntR.",
     "collections.Counter": b"ccollections\nCounter\n)R.",
@@ -210,6 +211,17 @@ def step(model, ctxs, st, spare=None):
                     f"{n} should be protected ({state}) but a flagged pickle through it was {got} "
                     f"{detail or ''}"
                 )
+            import sys
+
+            for m in [m for m in sys.modules if m.split(".")[0] == "verif_canary"]:
+                del sys.modules[m]
+            got, detail = probe(n, CANARY)
+            leaked = [m for m in sys.modules if m.split(".")[0] == "verif_canary"]
+            for m in leaked:
+                del sys.modules[m]
+            if got != "refused" or leaked:
+                return (f"{n} should be protected ({state}) but a pickle naming an importable, not yet imported module "
+                        f"was {got}; modules imported: {leaked}")
             # "precisely the protection that was in force": the binding must be the protection
             # the model names, not merely some protection
             if state == "ml":
